@@ -38,6 +38,7 @@ def run(ctx):
     n = 1 if ctx.tier == 'quick' else 8
     checks = []   # (stream, coq bool expr, description, replay dict)
     pow_stream(ctx, cirq, mods, checks, 110 * n)
+    pow_grid(ctx, cirq, mods, checks)
     ctrl_stream(ctx, cirq, mods, checks, 90 * n)
     phase_stream(ctx, cirq, mods, checks, 90 * n)
     predicate_stream(ctx, cirq, mods, checks, n)
@@ -102,6 +103,39 @@ def pow_stream(ctx, cirq, mods, checks, n):
             ctx.count('pow', [g.key(), a, 'int'], not np.allclose(u, np.eye(len(u))), sample=dict(gate=g.key(), power=a, how='integer power'))
             checks.append(('pow', f'fcll_close {TOLP} (mpow_int (gate_model FOps {g.coq()}) {"true" if a < 0 else "false"} {abs(a)}%nat) {gates.fmat(u)}',
                            f'({fam} {g.key()[1]}) ** {a}: matrix is not the matrix power', dict(signature=f'pow:{fam}:int', gate=g.key(), power=a)))
+
+
+def pow_grid(ctx, cirq, mods, checks):
+    """Every non-eigen family x every integer exponent x every spelling (gate ** a, cirq.inverse(gate), (op ** a).gate,
+    cirq.inverse(op)): run for every seed, so a fast path at one (family, exponent) cannot hide behind the random stream."""
+    rng = ctx.rng
+    other = ['FSim', 'PhasedFSim', 'PhasedX', 'PhasedXZ', 'PhasedISwap', 'Matrix', 'Diagonal', 'Ctrl', 'CSwap', 'QFT', 'PhaseGrad', 'Perm',
+             'Rx', 'Ry', 'Rz', 'Identity', 'GlobalPhase', 'Givens', 'MS']
+    for fam in other:
+        for a in (-1, 2, 3, -2, 0):
+            g = gates.draw(rng, fam)
+            if fam == 'Matrix':
+                # a generic (non-symmetric, non-normal-looking) unitary: transposes and conjugates are all different matrices
+                while np.allclose(g.p['m'], g.p['m'].T, atol=1e-3):
+                    g = gates.draw(rng, fam)
+            cg = g.cirq_gate(cirq, mods)
+            forms = [('gate**a', lambda: cirq.pow(cg, a, None))]
+            if a == -1:
+                forms.append(('inverse(gate)', lambda: cirq.inverse(cg, None)))
+            if g.shape:
+                qs = cirq.LineQid.for_qid_shape(g.shape)
+                forms.append(('op**a', lambda: cirq.pow(cg.on(*qs), a, None)))
+                if a == -1:
+                    forms.append(('inverse(op)', lambda: cirq.inverse(cg.on(*qs), None)))
+            for how, mk in forms:
+                obj = mk()
+                if obj is None or not cirq.has_unitary(obj):
+                    continue
+                u = unitary_of(cirq, obj)
+                ctx.count('pow_grid', [fam, a, how], not np.allclose(u, np.eye(len(u))), sample=dict(gate=g.key(), power=a, how=how))
+                checks.append(('pow_grid', f'fcll_close {TOLP} (mpow_int (gate_model FOps {g.coq()}) {"true" if a < 0 else "false"} {abs(a)}%nat) {gates.fmat(u)}',
+                               f'{how} with a = {a} of ({fam} {g.key()[1]}): matrix is not the matrix power',
+                               dict(signature=f'pow:{fam}:int', gate=g.key(), power=a, how=how)))
 
 
 def ctrl_stream(ctx, cirq, mods, checks, n):
@@ -263,6 +297,21 @@ def predicate_stream(ctx, cirq, mods, checks, n):
                 for eb in (1.0, 0.3):
                     for wb in ([0, 1], [1, 0], [1, 2], [2, 0]):
                         cands.append((E(fa, ea), [0, 1], E(fb, eb), wb, 3))
+    three = [E('CCZPow', 1.0), E('CCZPow', 0.5), E('CCXPow', 1.0), E('CCXPow', 0.3), E('CCYPow', 1.0), gates.G('CSwap', {}, (2, 2, 2))]
+    for g3 in three:
+        for fa in one:
+            for ea in (1.0, 0.5, 0.3):
+                for wa in ([0], [1], [2]):
+                    cands.append((E(fa, ea), wa, g3, [0, 1, 2], 3))
+                    cands.append((g3, [0, 1, 2], E(fa, ea), wa, 3))
+        for fb in two:
+            for eb in (1.0, 0.3):
+                for wb in ([0, 1], [1, 0], [1, 2], [2, 1], [0, 2], [2, 0]):
+                    cands.append((E(fb, eb), wb, g3, [0, 1, 2], 3))
+                    cands.append((g3, [0, 1, 2], E(fb, eb), wb, 3))
+        for h3 in three:
+            for wb in ([0, 1, 2], [1, 0, 2], [2, 1, 0], [0, 2, 1]):
+                cands.append((g3, [0, 1, 2], h3, wb, 3))
     for _ in range(60 * n):
         ga, gb = (gates.draw(rng, rng.choice(gates.FAST + ['ZZPow', 'CCZPow', 'Rz', 'Rx', 'PhasedX', 'ISwapPow', 'XXPow', 'Diagonal', 'Ctrl', 'GlobalPhase', 'Identity', 'FSim', 'PhasedISwap'])) for _ in range(2))
         nw = 3
@@ -297,6 +346,64 @@ def predicate_stream(ctx, cirq, mods, checks, n):
             checks.append(('has_stabilizer_effect', 'false',
                            f'has_stabilizer_effect answered True for {g.fam} {g.key()[1]} but the matrix does not map Paulis to Paulis',
                            dict(signature=f'stabilizer:{g.fam}', gate=g.key())))
+    # ---- equality of controlled operations: same sub-operation, same controls, control values attached in every way ----
+    import itertools
+    for k in range(n * 60):
+        sub = gates.draw(rng, rng.choice(['XPow', 'ZPow', 'HPow', 'YPow', 'CZPow', 'PhasedX', 'Rz']))
+        nc = rng.choice([2, 2, 3])
+        cdims = [rng.choice([2, 2, 3]) for _ in range(nc)]
+        cqs = [cirq.LineQid(i, dimension=d) for i, d in enumerate(cdims)]
+        tqs = cirq.LineQubit.range(nc, nc + len(sub.shape))
+        sop = rng.random() < 0.3
+
+        def draw_cv():
+            if sop:
+                allv = list(itertools.product(*[range(d) for d in cdims]))
+                return ('sop', [list(t) for t in rng.sample(allv, rng.randint(1, min(3, len(allv))))])
+            return ('pos', [sorted(rng.sample(range(d), rng.randint(1, max(1, d - 1)))) for d in cdims])
+        cv1 = draw_cv()
+        r = rng.random()
+        if r < 0.5:        # the same value sets, attached to the controls in another order
+            perm = list(range(nc)); rng.shuffle(perm)
+            cv2 = (cv1[0], [[t[j] for j in perm] for t in cv1[1]] if sop else [cv1[1][j] for j in perm])
+            if not sop and any(any(v >= cdims[i] for v in vs) for i, vs in enumerate(cv2[1])):
+                continue
+            if sop and any(any(t[i] >= cdims[i] for i in range(nc)) for t in cv2[1]):
+                continue
+        elif r < 0.75:
+            cv2 = draw_cv()
+        else:
+            cv2 = cv1
+        # second spelling may also list the controls (with their values) in another order: that is the same operation
+        order2 = list(range(nc))
+        if rng.random() < 0.5:
+            rng.shuffle(order2)
+
+        def build(cv, order):
+            subop = sub.cirq_gate(cirq, mods).on(*tqs)
+            if cv[0] == 'sop':
+                vals = cirq.SumOfProducts([tuple(t[j] for j in order) for t in cv[1]])
+            else:
+                vals = [tuple(cv[1][j]) for j in order]
+            return subop.controlled_by(*[cqs[j] for j in order], control_values=vals)
+        a, b = build(cv1, list(range(nc))), build(cv2, order2)
+        eq = (a == b)
+        ap = cirq.approx_eq(a, b, atol=1e-7)
+        up = cirq.equal_up_to_global_phase(a, b, atol=1e-7)
+        hh = eq and (hash(a) != hash(b))
+        ga = gates.G('Ctrl', dict(sub=sub, cdims=cdims, cv=cv1), tuple(cdims) + tuple(sub.shape))
+        gb = gates.G('Ctrl', dict(sub=sub, cdims=cdims, cv=cv2), tuple(cdims) + tuple(sub.shape))
+        ctx.count('equality_controlled_op', [sub.key(), cdims, cv1, cv2, order2], bool(eq or ap or up),
+                  sample=dict(sub=sub.key(), control_dims=cdims, values_a=cv1, values_b=cv2, order_b=order2, eq=eq, approx_eq=ap, up_to_phase=up))
+        if hh:
+            checks.append(('equality_controlled_op', 'false', f'two equal controlled operations hash differently: {a!r} / {b!r}',
+                           dict(signature='equality:controlled_op:hash', sub=sub.key(), cdims=cdims, cv1=cv1, cv2=cv2, order2=order2)))
+        if eq or ap or up:
+            close = 'fcll_close' if (eq or ap) else 'fcll_close_phase'
+            checks.append(('equality_controlled_op', f'{close} 0x1p-18 (gate_model FOps {ga.coq()}) (gate_model FOps {gb.coq()})',
+                           f'{"==" if eq else "approx_eq" if ap else "equal_up_to_global_phase"} answered True for controlled operations with control values {cv1} and {cv2} '
+                           f'(controls {cdims}, sub {sub.fam} {sub.p}) but the block matrices differ',
+                           dict(signature='equality:controlled_op', sub=sub.key(), cdims=cdims, cv1=cv1, cv2=cv2, order2=order2)))
     # ---- equality family and trace-distance bound ----
     for k in range(n * 160):
         mode = rng.choice(['equal', 'equal', 'tdb', 'tdb'])
